@@ -289,6 +289,11 @@ func (e *SpecEnv) pkgObject(pkg *ssa.Package, obj types.Object) (SV, error) {
 		a := e.g.resolveAddr(gl, e.state())
 		return SV{e.g.w.loadAddr(a, e.state(), o.Type()), o.Type()}, nil
 	}
+	if fo, ok := obj.(*types.Func); ok {
+		if fn := pkg.Func(fo.Name()); fn != nil {
+			return SV{e.g.w.globalRef("F:" + fn.String()), fo.Type()}, nil
+		}
+	}
 	return SV{}, fmt.Errorf("unsupported package object %s", obj.Name())
 }
 
@@ -1063,6 +1068,21 @@ func (e *SpecEnv) call(n *ast.CallExpr) (SV, error) {
 				return SV{v.T, obj.Type()}, nil
 			}
 		}
+		// a function-typed parameter or local applied to arguments: the same pure application the engine uses for a
+		// dynamic call with one result in the code
+		if fv, err := e.ident(id); err == nil {
+			if sig, ok := fv.Typ.Underlying().(*types.Signature); ok && sig.Results().Len() == 1 {
+				var args []Term
+				for _, a := range n.Args {
+					v, err := e.eval(a)
+					if err != nil {
+						return SV{}, err
+					}
+					args = append(args, v.T)
+				}
+				return SV{g.dynApply(fv.T, sig, args), sig.Results().At(0).Type()}, nil
+			}
+		}
 		return SV{}, fmt.Errorf("unknown function %s in spec", id.Name)
 	}
 	// method call x.M(args) -> pure method
@@ -1090,7 +1110,10 @@ func (e *SpecEnv) call(n *ast.CallExpr) (SV, error) {
 				}
 			}
 		}
+		savedRI := e.retIndex
+		e.retIndex = 0 // ret(i, …) selects a result of the OUTER call, not of calls inside its receiver or arguments
 		recv, err := e.eval(sel.X)
+		e.retIndex = savedRI
 		if err != nil {
 			return SV{}, err
 		}
@@ -1194,13 +1217,17 @@ func (e *SpecEnv) pureCall(fn *ssa.Function, recv *SV, argExprs []ast.Expr) (SV,
 		}
 		args = append(args, rt.T)
 	}
+	savedRI := e.retIndex
+	e.retIndex = 0
 	for _, a := range argExprs {
 		v, err := e.eval(a)
 		if err != nil {
+			e.retIndex = savedRI
 			return SV{}, err
 		}
 		args = append(args, v.T)
 	}
+	e.retIndex = savedRI
 	// make sure the object heaps the function reads exist in this state
 	for _, p := range fn.Params {
 		if pt, ok := p.Type().Underlying().(*types.Pointer); ok {
